@@ -196,7 +196,7 @@ def normalize_l1(events):
         elif a == 'Open':
             rm = [x for x in (_rm_entry(nm) for nm in e.get('removed', [])) if x]
             out.append({'a': 'Open', 'n': n, 'removed': rm, 'meta': e.get('meta', {}), 'head': e.get('head', -1),
-                        'ok': 'err' not in e})
+                        'ok': 'err' not in e, 'ctab': e.get('ctab') or []})
             reopened = True
         elif a == 'GCStart':
             out.append({'a': 'GCStart', 'n': n, 'begin': e['begin'], 'end': e['end'], 'merge': bool(e.get('merge')),
